@@ -544,8 +544,9 @@ def run_property(prop, spec, tier, seed0):
                 unrepro.append((r, v)); continue
             viol_new.append((r, v))
     own_crashes, other_crashes = [], []
+    ignore_by_job = {Job(j).name: set(j.get("ignore_kinds", [])) for j in spec["jobs"]}
     for c in crashes:
-        if c["kind"] in crash_prop:
+        if c["kind"] in crash_prop and c["kind"] not in ignore_by_job.get(c.get("_job", ""), set()):
             own_crashes.append(c)
         else:
             other_crashes.append(c)
